@@ -127,27 +127,44 @@ pub fn match_known<'a>(
         if k.status != "known" || k.property != property {
             return false;
         }
-        if k.key_is_prefix {
-            return full.starts_with(k.key.as_str());
+        // every criterion the entry states has to hold
+        let class_criteria = k.class_atom.is_some() || k.class_contains.is_some() || k.class_atom_suffix.is_some() || k.class_atom_prefix.is_some();
+        let key_ok = if k.key_is_prefix {
+            full.starts_with(k.key.as_str())
+        } else if class_criteria {
+            k.key == head
+        } else {
+            k.key == full
+        };
+        if !key_ok {
+            return false;
         }
-        if let (Some(sub), Some(c)) = (&k.class_contains, &class) {
-            return k.key == head && c.contains(sub.as_str());
+        if !class_criteria {
+            return true;
         }
-        if let (Some(prefix), Some(suffix), Some(c)) = (&k.class_atom_prefix, &k.class_atom_suffix, &class) {
-            // both given: the (single-atom) class starts with the one and ends with the other
-            return k.key == head && c.starts_with(prefix.as_str()) && c.ends_with(suffix.as_str());
+        let Some(c) = &class else { return false };
+        if let Some(sub) = &k.class_contains {
+            if !c.contains(sub.as_str()) {
+                return false;
+            }
         }
-        if let (Some(suffix), Some(c)) = (&k.class_atom_suffix, &class) {
-            return k.key == head && crate::model::class_atoms(c).iter().any(|a| a.ends_with(suffix.as_str())) || (k.key == head && c.ends_with(suffix.as_str()));
+        if let Some(prefix) = &k.class_atom_prefix {
+            if !c.starts_with(prefix.as_str()) {
+                return false;
+            }
         }
-        if let (Some(prefix), Some(c)) = (&k.class_atom_prefix, &class) {
-            return k.key == head && c.starts_with(prefix.as_str());
+        if let Some(suffix) = &k.class_atom_suffix {
+            let by_atom = k.class_atom_prefix.is_none() && crate::model::class_atoms(c).iter().any(|a| a.ends_with(suffix.as_str()));
+            if !(by_atom || c.ends_with(suffix.as_str())) {
+                return false;
+            }
         }
-        match (&k.class_atom, &class) {
-            (Some(atom), Some(c)) => k.key == head && crate::model::class_atoms(c).contains(atom),
-            (Some(_), None) => false,
-            (None, _) => k.key == full,
+        if let Some(atom) = &k.class_atom {
+            if !crate::model::class_atoms(c).contains(atom) {
+                return false;
+            }
         }
+        true
     })
 }
 
